@@ -303,3 +303,115 @@ HALF_FORMS = {
     "halbe stunden": (30, "minutes"), "half a hour": (30, "minutes"), "halb tag": (12, "hours"),
     "halbe tage": (12, "hours"), "1/2 stunde": (30, "minutes"),
 }
+
+# ---------------------------------------------------------------------------
+# day expressions for composition (C20, C09, C10)
+# ---------------------------------------------------------------------------
+# name -> (text builder(params) , class); the expected day is what the day
+# expression alone resolves to (metamorphic), so no date function is needed here
+DAY_FORMS = {
+    "abs/dd.mm.yyyy": lambda p: "%02d.%02d.%04d" % (p["d"], p["m"], p["y"]),
+    "abs/d.m.yyyy": lambda p: "%d.%d.%04d" % (p["d"], p["m"], p["y"]),
+    "abs/dd/mm/yyyy": lambda p: "%02d/%02d/%04d" % (p["d"], p["m"], p["y"]),
+    "abs/d Month yyyy": lambda p: "%d %s %04d" % (p["d"], MONTH_EN[p["m"] - 1], p["y"]),
+    "abs/d. Monat yyyy": lambda p: "%d. %s %04d" % (p["d"], MONTH_DE[p["m"] - 1], p["y"]),
+    "abs/Month d yyyy": lambda p: "%s %d %04d" % (MONTH_EN[p["m"] - 1], p["d"], p["y"]),
+    "rel/today": lambda p: "today", "rel/heute": lambda p: "heute", "rel/tomorrow": lambda p: "tomorrow",
+    "rel/morgen": lambda p: "morgen", "rel/übermorgen": lambda p: "übermorgen", "rel/yesterday": lambda p: "yesterday",
+    "rel/gestern": lambda p: "gestern",
+    "dow/X": lambda p: DOW_FULL_EN[p["dow"]], "dow/on X": lambda p: "on " + DOW_FULL_EN[p["dow"]],
+    "dow/this X": lambda p: "this " + DOW_FULL_EN[p["dow"]], "dow/next X": lambda p: "next " + DOW_FULL_EN[p["dow"]],
+    "dow/X de": lambda p: DOW_FULL_DE[p["dow"]], "dow/am X": lambda p: "am " + DOW_FULL_DE[p["dow"]],
+    "dow/nächsten X": lambda p: "nächsten " + DOW_FULL_DE[p["dow"]],
+    "dom/the dth": lambda p: "the " + ord_en(p["d"]), "dom/dth": lambda p: ord_en(p["d"]),
+    "dom/am d.": lambda p: "am %d." % p["d"], "dom/d.": lambda p: "%d." % p["d"],
+    "doy/d.m.": lambda p: "%d.%d." % (p["d"], p["m"]), "doy/dth of Month": lambda p: "%s of %s" % (ord_en(p["d"]), MONTH_EN[p["m"] - 1]),
+    "doy/Month dth": lambda p: "%s %s" % (MONTH_EN[p["m"] - 1], ord_en(p["d"])),
+    "doy/d. Monat": lambda p: "%d. %s" % (p["d"], MONTH_DE[p["m"] - 1]),
+    "doy/d Month": lambda p: "%d %s" % (p["d"], MONTH_EN[p["m"] - 1]),
+}
+COMPOSE_CONN = {"_": " ", "at": " at ", "um": " um "}
+
+# ---------------------------------------------------------------------------
+# a mixed pool of time expressions drawn from every table above (C01, C02,
+# C09, C10, C11, C14): returns (class, text)
+# ---------------------------------------------------------------------------
+
+
+def expression(r):
+    """one random expression of the specification grammar"""
+    kind = r.choice(["rel", "dow", "clock", "date", "dom", "doy", "pod", "dur", "range", "dayclock", "halfopen", "for",
+                     "spoken", "podclock", "date", "clock", "dayclock"])
+    y, m, d = r.randrange(1990, 2030), r.randrange(1, 13), r.randrange(1, 29)
+    h, mi = r.randrange(24), r.choice([0, 0, 15, 30, 45, r.randrange(60)])
+
+    def clock():
+        for _ in range(30):
+            cn = r.choice(list(CLOCK))
+            fn, fl = CLOCK[cn]
+            t = fn(h, mi)
+            if t is not None and not (fl.get("exclude") and fl["exclude"](h, mi)):
+                return t
+        return "%02d:%02d" % (h, mi)
+
+    if kind == "rel":
+        c = r.choice(list(REL))
+        return "rel/" + c, r.choice(REL[c])
+    if kind == "dow":
+        i = r.randrange(7)
+        w = r.choice(DOW[i])
+        f = r.choice(["this", "next", "post"])
+        if f == "this":
+            return "dow/this", r.choice(DOW_THIS_PRE) + w
+        if f == "next":
+            return "dow/next", r.choice(DOW_NEXT_PRE) + w
+        return "dow/nextweek", w + r.choice(DOW_NEXT_POST)
+    if kind == "clock":
+        return "clock", clock()
+    if kind == "date":
+        nn = r.choice(list(DATE_NOTATIONS))
+        return "date/" + nn, DATE_NOTATIONS[nn][0](y, m, d)
+    if kind == "dom":
+        nn = r.choice(list(DOM_FORMS))
+        return "dom/" + nn, DOM_FORMS[nn](r.randrange(1, 32))
+    if kind == "doy":
+        for _ in range(10):
+            nn = r.choice(list(DOY_FORMS))
+            t = DOY_FORMS[nn](d, m)
+            if t:
+                return "doy/" + nn, t
+        return "doy/d.m.", "%d.%d." % (d, m)
+    if kind == "pod":
+        return "pod", r.choice(list(POD_FORMS))
+    if kind == "dur":
+        u = r.choice(list(UNIT_WORDS))
+        n = r.randrange(0, 121)
+        if r.random() < 0.4 and 1 <= n <= 31:
+            return "dur/word", "%s %s" % (r.choice([NUM_EN, NUM_DE])[n - 1], r.choice(UNIT_WORDS[u]))
+        return "dur/digit", "%d %s" % (n, r.choice(UNIT_WORDS[u]))
+    if kind == "range":
+        j = r.choice(list(RANGE_JOIN))
+        if r.random() < 0.5:
+            hf = RANGE_HOUR_FORMS[r.choice(list(RANGE_HOUR_FORMS))]
+            return "range/clock", RANGE_JOIN[j].format(a=hf(h, 0), b=hf(r.randrange(24), 0))
+        d2 = r.randrange(d, 29)
+        return "range/date", RANGE_JOIN[j].format(a="%02d.%02d.%04d" % (d, m, y), b="%02d.%02d.%04d" % (d2, m, y))
+    if kind == "dayclock":
+        dn = r.choice(list(DAY_FORMS))
+        day = DAY_FORMS[dn]({"y": y, "m": m, "d": d, "dow": r.randrange(7)})
+        conn = r.choice(list(COMPOSE_CONN.values()))
+        if r.random() < 0.5:
+            return "dayclock/day-first", day + conn + clock()
+        return "dayclock/clock-first", clock() + " " + day
+    if kind == "halfopen":
+        w = r.choice(BEFORE_WORDS + AFTER_WORDS + NOT_BEFORE_WORDS + NOT_AFTER_WORDS)
+        return "halfopen", "%s %s" % (w, r.choice(["%02d.%02d.%04d" % (d, m, y), "%d:%02d" % (h, mi)]))
+    if kind == "for":
+        u = r.choice(list(UNIT_WORDS))
+        return "for", "%02d.%02d.%04d %s %d %s" % (d, m, y, r.choice(["for", "für"]), r.randrange(1, 40), r.choice(UNIT_WORDS[u]))
+    if kind == "spoken":
+        pre = r.choice(list(SPOKEN))
+        hf = SPOKEN_HOUR_FORMS[r.choice(list(SPOKEN_HOUR_FORMS))]
+        return "spoken", "%s %s" % (pre, hf(h))
+    hh = r.randrange(1, 12)
+    return "podclock", "%d:%02d %s" % (hh, mi, r.choice(POD_PM + POD_AM))
